@@ -82,6 +82,17 @@ def instr_lines(kind, ident, phase, log):
     raise ValueError(kind)
 
 
+def defect_lines(phase, v):
+    """A syntactically defective element: v=0 an unknown instruction (one line); v=1, 2 a multi-line instruction whose
+    defective token sits on its LAST line (of 3 resp. 4 lines, one of them empty)."""
+    if v == 0 or phase == 'conf':
+        return ['no-such-instruction-c07 some arguments']
+    head = 'exit-code ( == 0 ||' if phase == 'assert' else 'def integer-matcher MD_C07 = ( == 0 ||'
+    if v == 1:
+        return [head, '   == 1 ||', '  == == 2 )']
+    return [head, '', '   == 1 ||', '\t== == 2 )']
+
+
 def render(doc, log=None, files=None, parent_dir=''):
     """-> files {relpath: text}; also annotates nothing.  Returns the files dict."""
     if files is None:
@@ -114,6 +125,7 @@ def render(doc, log=None, files=None, parent_dir=''):
                 for j in range(n - 2):
                     out.append('more description %d' % j)
                 out.append('end of description`')
+            out.extend(it[3] if len(it) > 3 else [])  # blank / comment lines between the description and its instruction
             out.extend(instr_lines('i1', it[1], phase, log))
         elif k == 'act':
             out.append(it[1])
@@ -127,7 +139,7 @@ def render(doc, log=None, files=None, parent_dir=''):
         elif k == 'inc_raw':
             out.append('including ' + it[1])
         elif k == 'defect':
-            out.append('no-such-instruction-c07 some arguments')
+            out.extend(defect_lines(phase, it[1] if len(it) > 1 else 0))
         else:
             raise ValueError(k)
     files[doc['name']] = '\n'.join(out) + ('\n' if doc.get('final_nl', True) else '')
@@ -135,8 +147,11 @@ def render(doc, log=None, files=None, parent_dir=''):
 
 
 def unescape_act(line):
-    if line.startswith('\\[') or line.startswith('\\\\'):
-        return line[1:]
+    # the escape character is the first non-space character of the line (an indented `[` would be a header too)
+    rest = line.lstrip(' \t')
+    space = line[:len(line) - len(rest)]
+    if rest.startswith('\\[') or rest.startswith('\\\\'):
+        return space + rest[1:]
     return line
 
 
@@ -173,8 +188,9 @@ def expected_elements(doc, log=None, chain=(), acc=None, start_phase='act', ref_
             else:
                 desc = '\n'.join(['description of %s' % it[1]] + ['more description %d' % j for j in range(n - 2)] +
                                  ['end of description'])
-            acc[phase].append({'file': file_ref, 'line': ln + n, 'lines': ls, 'chain': list(chain), 'desc': desc})
-            ln += n + len(ls)
+            gap = len(it[3]) if len(it) > 3 else 0
+            acc[phase].append({'file': file_ref, 'line': ln + n + gap, 'lines': ls, 'chain': list(chain), 'desc': desc})
+            ln += n + gap + len(ls)
         elif k == 'act':
             # consecutive act source lines form one element (the act phase is not a sequence of instructions)
             prev = acc[phase][-1] if acc[phase] else None
@@ -239,7 +255,8 @@ def _rand_items(rng, start_phase, depth, idgen, allow_hdr=True, max_items=8):
             items.append(['hdr', phase, rng.randrange(4)])
             continue
         if phase == 'act':
-            t = rng.choice(['echo act-line', '\\[setup]', '\\\\[x', 'x [y] z', '  indented', '\\[no-such-phase]'])
+            t = rng.choice(['echo act-line', '\\[setup]', '\\\\[x', 'x [y] z', '  indented', '\\[no-such-phase]',
+                            '    \\[setup]', '\t\\[assert] x', '  \\\\[y', ' \\[no-such-phase]'])
             items.append(['act', t])
             continue
         r = rng.random()
@@ -256,7 +273,9 @@ def _rand_items(rng, start_phase, depth, idgen, allow_hdr=True, max_items=8):
         elif r < 0.78:
             items.append(['ids', idgen()])
         elif r < 0.86:
-            items.append(['idp', idgen(), rng.choice((1, 2, 3))])
+            items.append(['idp', idgen(), rng.choice((1, 2, 3))] +
+                         ([rng.choice([[''], ['# a comment'], ['', '   # indented comment', ''], ['#c1', '#c2'],
+                                       ['   ', '\t']])] if rng.random() < 0.4 else []))
         elif depth > 0:
             sub = rng.choice(['', 'sub/', 'sub/deeper/', '../'])
             ref = '%sinc-%s.xly' % (sub, idgen())
@@ -706,7 +725,9 @@ def run_defect(case, ctx):
         slots = [((), len(doc['items']), 'setup')]
     path, idx, phase = slots[case['pick'] % len(slots)]
     target = _doc_at(doc, path)
-    target['items'].insert(idx, ['defect'])
+    variant = (case['pick'] // 5) % 3
+    target['items'].insert(idx, ['defect', variant])
+    dl = defect_lines(phase, variant)
     files = render(doc)
     # where is the defect, by construction?
     chain = []
@@ -733,7 +754,7 @@ def run_defect(case, ctx):
         viol.append({'what': 'C07 exception escaped: ' + r.exc[-200:], 'detail': {'files': files}})
     else:
         if r.rc != 65 or r.out != 'SYNTAX_ERROR\n':
-            viol.append({'what': 'C07 document with an unknown instruction at %s line %d: outcome %r/%r, expected '
+            viol.append({'what': 'C07 document with a syntactically defective element at %s line %d: outcome %r/%r, expected '
                                  'SYNTAX_ERROR/65' % (shown, dline, r.out.strip(), r.rc),
                          'detail': {'files': files, 'stderr': r.err[:600]}})
         else:
@@ -751,8 +772,17 @@ def run_defect(case, ctx):
             m = re.search(r'(?m)^%s, line %d$' % (re.escape(shown), dline), err[pos:])
             if not m:
                 problems.append('location "%s, line %d" of the defective element not reported' % (shown, dline))
-            if 'no-such-instruction-c07 some arguments' not in err:
-                problems.append('source text of the defective element not shown')
+            if len(dl) == 1:
+                if dl[0] not in err:
+                    problems.append('source text of the defective element not shown')
+            else:
+                # every line of the element before the one with the defective token in full, that line at least up
+                # to the token
+                for l in dl[:-1]:
+                    if l.strip() and l.strip() not in err:
+                        problems.append('source line %r of the (multi-line) defective element not shown' % l)
+                if dl[-1].strip()[:5] not in err:
+                    problems.append('the source line holding the defective token (%r) is not shown' % dl[-1])
             if ('In [%s]' % phase) not in err:
                 problems.append('phase [%s] not named' % phase)
             if problems:
@@ -763,7 +793,7 @@ def run_defect(case, ctx):
         viol.append({'what': 'C07 ' + m, 'detail': {'files': files}})
     ses.clean_tmp()
     ses.drop(d)
-    res = {'classes': [('defect', len(chain), phase, 'first' if idx <= 1 else 'later')], 'viol': viol,
+    res = {'classes': [('defect', len(chain), phase, 'first' if idx <= 1 else 'later', len(dl))], 'viol': viol,
            'inconclusive': inconc}
     if len(chain) == 2:
         res['sample'] = {'files': files, 'defect_at': [shown, dline], 'chain': chain, 'stderr': r.err[:700]}
@@ -781,12 +811,14 @@ def _line_of_item(doc, index):
         if k == 'hdr':
             phase = it[1]
             ln += 1
-        elif k in ('comment', 'blank', 'act', 'inc', 'inc_raw', 'defect', 'hdr_unknown', 'ids'):
+        elif k in ('comment', 'blank', 'act', 'inc', 'inc_raw', 'hdr_unknown', 'ids'):
             ln += 1
+        elif k == 'defect':
+            ln += len(defect_lines(phase, it[1] if len(it) > 1 else 0))
         elif k in ('i1', 'im', 'ip'):
             ln += len(instr_lines(k, it[1], phase, None))
         elif k == 'idp':
-            ln += it[2] + len(instr_lines('i1', it[1], phase, None))
+            ln += it[2] + (len(it[3]) if len(it) > 3 else 0) + len(instr_lines('i1', it[1], phase, None))
     return ln
 
 
